@@ -359,6 +359,13 @@ theorem T_C11_sphere_scaled (r : Rat) (o c x : V3) :
   simp only [scaleAbout, V3.norm2, V3.dot, V3.sub_x, V3.sub_y, V3.sub_z]
   ring
 
+/-- the criterion by which `VertexList` merges two points, squared distance below a fixed bound, gives the
+    same verdict wherever the shape is placed (a tolerance relative to the coordinates does not) -/
+theorem T_C11_merge_translation_invariant (p q t : V3) :
+    V3.norm2 ((p + t) - (q + t)) = V3.norm2 (p - q) := by
+  simp only [V3.norm2, V3.dot, V3.sub_x, V3.sub_y, V3.sub_z, V3.add_x, V3.add_y, V3.add_z]
+  ring
+
 /-- non-vacuity: scaling a shared point by 4/5 about two different centres tears it apart -/
 example : scaleAbout (4 / 5) ⟨0, 0, 0⟩ ⟨1, 0, 0⟩ ≠ scaleAbout (4 / 5) ⟨1 / 2, 0, 0⟩ ⟨1, 0, 0⟩ := by
   intro h
